@@ -692,3 +692,45 @@ func mayDo(p *Prog, pred func(ssa.Instruction) bool) func(ssa.Instruction) bool 
 	}
 	return lifted
 }
+
+// timeOrder normalises comparisons of time.Time values: it reports whether the fact
+// establishes "x is strictly after y" (res=+1), "x is not after y" (res=-1) for the pair
+// of values matched by mx/my; both a.After(b) and b.Before(a) spellings are understood.
+func timeOrderFact(f fact, mx, my func(ssa.Value) bool) int {
+	c, v := f.Cond, f.Val
+	for {
+		u, ok := c.(*ssa.UnOp)
+		if ok && u.Op == token.NOT {
+			c, v = u.X, !v
+			continue
+		}
+		break
+	}
+	call, ok := c.(*ssa.Call)
+	if !ok || len(call.Call.Args) != 2 {
+		return 0
+	}
+	a, b := call.Call.Args[0], call.Call.Args[1]
+	var xAfterY bool
+	switch callName(call) {
+	case "(time.Time).After": // a after b
+		if mx(a) && my(b) {
+			xAfterY = true
+		} else {
+			return 0
+		}
+	case "(time.Time).Before": // a before b  <=> b after a
+		if mx(b) && my(a) {
+			xAfterY = true
+		} else {
+			return 0
+		}
+	default:
+		return 0
+	}
+	_ = xAfterY
+	if v {
+		return 1
+	}
+	return -1
+}
